@@ -236,6 +236,10 @@ def _do_bf(b, st, side, sid):
     def f_body(b2, fn):
         if side.probe is not None:
             side.probe(b2, sid + ':start')
+        early = bool(opts.get('write_first')) and mode not in ('no_create', 'raise_before') and not opts.get('copy')
+        if early:
+            # the function writes its output first and only then runs its nested statements
+            w.user_write(side.fs, fn, content)
         r = run_body(b2, body, side, sid)
         if side.probe is not None and body:
             side.probe(b2, sid + ':after-body')
@@ -248,7 +252,7 @@ def _do_bf(b, st, side, sid):
             r.append(got)
             if not isinstance(got, str):
                 c = got
-        if mode != 'no_create':
+        if mode != 'no_create' and not early:
             w.user_write(side.fs, fn, c)
             if side.probe is not None:
                 side.probe(b2, sid + ':written')
